@@ -732,6 +732,14 @@ func build(t *testing.T, c *engine.Check, thorough bool, pt part) *world {
 					}
 				}
 			}
+			// use - kill - use on one provider object: the token is presented at every endpoint, then revoked by its owner
+			// (or its session ended), then presented again
+			if !w.dyn && (tk.genuine == genAT || tk.genuine == genRT) {
+				*all = append(*all, strings.Join([]string{"uku", R, tk.name, "revoke"}, "|"))
+				if own.idt != "" {
+					*all = append(*all, strings.Join([]string{"uku", R, tk.name, "logout"}, "|"))
+				}
+			}
 			// end_session with a string that is not the family's id token as id_token_hint: forged / foreign /
 			// expired-and-forged id tokens, JWT access tokens, garbage
 			if !w.dyn && tk.gen == 0 && ((jwtish && tk.genuine != genIDT) || tk.kind == "jwt-at" || tk.name == "g.garbagetxt") {
@@ -1071,7 +1079,7 @@ func (w *world) newStep(t *testing.T) func(int) func(S, string) (S, engine.Resul
 			// Primed operations ("~p") always run on a provider of their own: the priming requests, then the judged one.
 			r := w.newRig()
 			return func(s S, opl string) (S, engine.Result) {
-				if strings.HasSuffix(opl, "~p") {
+				if strings.HasSuffix(opl, "~p") || strings.HasPrefix(opl, "uku|") {
 					return w.exec(t, w.newRig(), s, opl)
 				}
 				post, res := w.exec(t, r, s, opl)
@@ -1209,6 +1217,8 @@ func (w *world) exec(t *testing.T, r *rig.Rig, s S, opl string) (S, engine.Resul
 		res, eff, opKind, inClass = w.doEndSession(s, p, router, host, do, &resp)
 	case "esx":
 		res, eff, opKind, inClass = w.doEndSessionForged(s, p, router, host, do, &resp)
+	case "uku":
+		res, eff, opKind, inClass = w.doUseKillUse(s, p, router, host, do, &resp)
 	default:
 		return s, engine.Bad("internal", "unknown-op", "C08/internal/unknown-op", opl)
 	}
